@@ -29,9 +29,9 @@ UNSTEM = {v: k for k, v in STEM.items()}
 # the twins graph: three files with ONE base name in different packages (vm/n.py imports vm/p/n.py and vm/q/n.py)
 # the chain graph: every dotted path is a substring of the one listed before it, and the first one also ENDS with the second
 # (vm.p.vm.n1 / vm.n1 / vm.n): nothing may select a module by a partial match of its path, from either end
-# the pair graph: the top module lies deep in a package tree - its dotted path alone is longer than a short read buffer
+# the long pair graph (the pair graph of C06): the top module lies deep in a package tree - its dotted path alone is longer than a short read buffer
 GRAPH_STEM = {'Twins': {'a': 'n', 'b': 'p.n', 'c': 'q.n'}, 'Chain': {'a': 'p.vm.n1', 'b': 'n1', 'c': 'n'},
-	'Pair': {'b': 'systems.physics.collision.broadphase.spatial_hash_grid_builder_module', 'c': 'n'}}
+	'PairLong': {'b': 'systems.physics.collision.broadphase.spatial_hash_grid_builder_module', 'c': 'n'}}
 
 
 def stem_of(graph: str, m: str) -> str:
@@ -52,6 +52,8 @@ def source_of(graph: str, m: str, v: int) -> str:
 
 
 def _source_of(graph: str, m: str, v: int) -> str:
+	if graph == 'PairLong':
+		graph = 'Pair'
 	if v == 3:
 		text = _source_of(graph, m, 1)
 		# layout-only edit: a blank line before the last statement / definition and one at the end
@@ -89,6 +91,7 @@ GRAPHS = {
 	'Twins': {'mods': ['a', 'b', 'c'], 'targets': ['a', 'b', 'c'], 'init': {'c': 2}},
 	'Chain': {'mods': ['a', 'b', 'c'], 'targets': ['a', 'b', 'c']},
 	'Pair': {'mods': ['b', 'c'], 'targets': ['b', 'c']},
+	'PairLong': {'mods': ['b', 'c'], 'targets': ['b', 'c']},
 	'Diamond': {'mods': ['a', 'b', 'c', 'd'], 'targets': ['d', 'a', 'c', 'b']},
 }
 
